@@ -22,10 +22,12 @@ ASSUMPTIONS = ["symlinked sub-directories are materialised (15%) and must behave
 TRUSTED = ["os.walk / os.unlink (file tree supplied to the model by the harness)"]
 
 FILE_POOL = ["a.py", "a.pyc", "a.pyo", "b.pyc", "c.pyo", "d.py", "x.pyc.bak", ".pyc", "pyc", "X.PYC", "e.pyo~", "f.txt",
-             "__init__.py", "__init__.pyc", "g.PY", "h.pyc", "h.py", ".py", "tests.pyc", "mod.pyo", "mod.py", "ä.pyc"]
+             "__init__.py", "__init__.pyc", "g.PY", "h.pyc", "h.py", ".py", "tests.pyc", "mod.pyo", "mod.py", "ä.pyc",
+             "top10%.pyc", "%s.pyo", "100%.py", "100%.pyc", "%(name)s.pyc", "sp ace.pyc", "new\nline.pyo"]
 DIR_POOL = ["pkg", "sub", "__pycache__", ".git", ".svn", "CVS", "_darcs", "not-ident", "node_modules", "deep", "x.y", "Ünï",
             "git", "svn", ".tox", "tox", "arch-ids", ".arch-ids", "{arch}", "__pycache__.old", "old__pycache__",
-            "__pycache__2", "CVS2", "_darcs.bak", "build[1]", "build1", "de?p", "mod.py", "a.py", "h.py"]
+            "__pycache__2", "CVS2", "_darcs.bak", "build[1]", "build1", "de?p", "mod.py", "a.py", "h.py", "cov-100%", "build-%d",
+            "%(x)s", "{0}", "sp ace"]
 # the documented defaults of --ignore_dir (cross-checked with the argparse default regenerated into Facts)
 DEFAULT_IGNORE = [".git", ".svn", "CVS", "{arch}", ".arch-ids", "_darcs"]
 
@@ -174,7 +176,10 @@ def run(ctx):
         else:
             with contextlib.redirect_stdout(io.StringIO()):
                 options = get_options(list(args), [])
-                remove_stale_bytecode(options)
+                try:
+                    remove_stale_bytecode(options)
+                except Exception as e_:  # noqa: BLE001 - what it left behind is judged below
+                    ctx.bump("cleanup raised %s" % type(e_).__name__)
         after = snapshot(d)
         with contextlib.redirect_stdout(io.StringIO()):
             real_ignore = sorted(get_options(list(args), []).ignore_dir)
